@@ -14,6 +14,7 @@ the regenerated values.  On a tree where `used_ports` is assigned only in the `e
 `assert_features` omits `group`, … that theorem — and with it this file — no longer checks.
 -/
 import SshuttleModel.Lemmas.ClientPlanMain
+import SshuttleModel.Lemmas.ClientPlanGranted
 import SshuttleModel.Spec.PlanConsistent
 import SshuttleModel.Lemmas.ClientPlanSpecEval
 
@@ -534,5 +535,280 @@ example :
     run { methodOpt := some "nft", group := some 1, includes := [⟨.v4, 167772160, 8, 0, 0⟩] }
         { avail := FEAT_nft, groups := fun _ => some 100 } = .stop (.fatal (.feature .group)) := by
   decide +kernel
+
+/-! ## 7. The port search as a whole -/
+
+/-- **C15_port_search.** For every bind oracle, every pair of listen addresses (absent, without
+port, with explicit port — per family), with or without a UDP redirector, with or without DNS:
+
+* the redirector search either fails — with the fatal message for an unavailable IPv6 address,
+  with a re-raised bind error other than `EADDRINUSE`, or with `EADDRINUSE` when *every* candidate
+  port was busy — or it binds on the **first** candidate on which all binds succeed; then exactly
+  the families with a listen address have a socket, on exactly the reported non-zero port, the UDP
+  redirector (if any) sits on the same addresses, and every socket was granted by the oracle;
+* the DNS search then either fails (same two ways, never an internal error) or binds one non-zero
+  port, for exactly the families with a listen address, granted by the oracle, not held by the
+  UDP redirector, and different from both redirector ports.
+
+By induction over the candidate list (`Lemmas/ClientPlanSearch`, `Lemmas/ClientPlanGranted`). -/
+theorem C15_port_search (env : Env) (P : Prep) :
+    (∀ s, tcpStage env P = .error s →
+      s = .fatal .bindV6NotAvail ∨ (∃ e, e ≠ Errno.inUse ∧ s = .osError e) ∨
+      (s = .osError .inUse ∧ ∀ q ∈ tcpPorts P, tcpAttempt env P.l6 P.l4 P.udp q = .err .inUse)) ∧
+    (∀ T, tcpStage env P = .ok T →
+      FamBound P.l6 T.tcp.v6 T.rp6 ∧ FamBound P.l4 T.tcp.v4 T.rp4 ∧
+      T.udpL = (if P.udp then some T.tcp else none) ∧
+      Granted env [] .tcp T.tcp ∧ (P.udp = true → Granted env [] .udp T.tcp) ∧
+      (∃ pre p post, tcpPorts P = pre ++ p :: post ∧
+        (∀ q ∈ pre, tcpAttempt env P.l6 P.l4 P.udp q = .err .inUse) ∧
+        tcpAttempt env P.l6 P.l4 P.udp p = .ok T.tcp) ∧
+      (∀ s, dnsStage env P T = .error s → s = .fatal .bindV6NotAvail ∨ ∃ e, s = .osError e) ∧
+      (∀ D, dnsStage env P T = .ok D →
+        (P.reqDns = false ∧ D.dnsL = none ∧ D.dp6 = 0 ∧ D.dp4 = 0) ∨
+        (P.reqDns = true ∧ ∃ q d, q ≠ 0 ∧ q ≠ T.rp4 ∧ q ≠ T.rp6 ∧ D.dnsL = some d ∧
+          d = ⟨P.l6.map fun a => ⟨a.ip, q⟩, P.l4.map fun a => ⟨a.ip, q⟩⟩ ∧
+          D.dp6 = (if P.l6.isSome then q else 0) ∧ D.dp4 = (if P.l4.isSome then q else 0) ∧
+          Granted env (heldOf T.udpL) .udp d))) := by
+  obtain ⟨hU, _, hR, hB, _, _, _, hT, hD, hE, _⟩ := C15_side_conditions
+  refine ⟨fun s h => tcpStage_error_kind hU hT hE h, fun T hT' => ?_⟩
+  obtain ⟨t6, t4, tu, tused⟩ := tcpStage_ok hU hT'
+  obtain ⟨pre, p, post, e, hpre, hp, g1, g2⟩ := tcpStage_first hU hT'
+  refine ⟨t6, t4, tu, g1, g2, ⟨pre, p, post, e, hpre, hp⟩,
+    fun s h => dnsStage_error_kind hB hD tused h, fun D hD' => ?_⟩
+  rcases dnsStage_ok hD' with h | ⟨hq, q, q0, hl, h6, h4, hne⟩
+  · exact Or.inl h
+  · right
+    obtain ⟨n4, n6⟩ := hne hR
+    exact ⟨hq, q, _, q0, n4, n6, hl, rfl, h6, h4, dnsStage_granted hD' hl⟩
+
+/-- Non-vacuity: with IPv4 TCP 12300 busy and IPv6 UDP 12298 busy the redirectors (TCP and UDP) go
+to 12299 and the DNS listener to 12297. -/
+example :
+    let env : Env := { avail := FEAT_tproxy, bind := fun pr f port =>
+      if (pr = .tcp ∧ f = .v4 ∧ port = 12300) ∨ (pr = .udp ∧ f = .v6 ∧ port = 12298) then some .inUse else none }
+    let P : Prep := mkPrep { dns := true, nsHosts := [⟨.v4, 1⟩] } env (some ⟨1, 0⟩) (some ⟨2130706433, 0⟩) none none
+    (match tcpStage env P with
+     | .ok T => T.rp4 == 12299 && T.rp6 == 12299 &&
+        (match dnsStage env P T with | .ok D => D.dp4 == 12297 && D.dp6 == 12297 | _ => false)
+     | _ => false) = true := by
+  decide +kernel
+
+/-- **C15_sockets_granted.** In every plan, every socket the plan names was granted by the bind
+oracle, and the DNS listener does not share an address with this process' UDP redirector. -/
+theorem C15_sockets_granted (c : Cmd) (env : Env) (p : Plan) (h : run c env = .plan p) :
+    SocketsGranted env.bind p := by
+  obtain ⟨hU, _⟩ := C15_side_conditions
+  obtain ⟨P, T, D, _, h2, h3, h4⟩ := clientMain_plan (run_plan h)
+  obtain ⟨hp, _⟩ := sanity_ok h4
+  obtain ⟨_, _, tu, g1, g2, _, _, hdns⟩ := (C15_port_search env P).2 T h2
+  subst hp
+  intro f a
+  refine ⟨fun ha => ?_, fun u hu ha => ?_, fun d hd ha => ?_⟩
+  · cases f with
+    | v4 => exact (bindOne_none (g1.2 a ha)).1
+    | v6 => exact (bindOne_none (g1.1 a ha)).1
+  · simp only at hu
+    rw [tu] at hu
+    split at hu
+    next hudp =>
+      injection hu with hu; subst hu
+      cases f with
+      | v4 => exact (bindOne_none ((g2 hudp).2 a ha)).1
+      | v6 => exact (bindOne_none ((g2 hudp).1 a ha)).1
+    · cases hu
+  · simp only at hd
+    rcases hdns D h3 with ⟨_, hn, _⟩ | ⟨_, q, d', _, _, _, hl, _, _, _, g⟩
+    · rw [hn] at hd; cases hd
+    · rw [hl] at hd; injection hd with hd; subst hd
+      have hb : bindOne env (heldOf T.udpL) .udp f a = none := by
+        cases f with
+        | v4 => exact g.2 a ha
+        | v6 => exact g.1 a ha
+      obtain ⟨b1, b2⟩ := bindOne_none hb
+      refine ⟨b1, fun u hu hua => b2 rfl ?_⟩
+      simp only at hu
+      rw [hu]
+      cases f with
+      | v4 => simp only [Listener.at] at hua; simp [heldOf, hua]
+      | v6 => simp only [Listener.at] at hua; simp [heldOf, hua]
+
+/-! ## 8. The feature check, in one statement -/
+
+
+
+/-- **C15_features.** For every feature table (in particular each regenerated one), every command
+line and every environment: a plan is handed over only if *every* feature the plan asks of the
+method — IPv4, IPv6 iff active, UDP iff a UDP redirector is planned, DNS iff name servers are handed
+over, user / group iff `--user` / `--group` was given — is in the method's table. -/
+theorem C15_features (c : Cmd) (env : Env) (p : Plan) (h : run c env = .plan p) :
+    ∀ k ∈ ASSERT_KEYS, requested c.user.isSome c.group.isSome p k = true → env.avail.get k = true := by
+  obtain ⟨hU, _⟩ := C15_side_conditions
+  obtain ⟨l6, l4, uid, gid, F⟩ := clientMain_plan_facts hU (run_plan h)
+  intro k hk hr
+  obtain ⟨r, hreq, himp⟩ := assertFeatures_none F.feats k hk
+  apply himp
+  unfold requiredGet at hreq
+  split at hreq
+  · injection hreq with hreq
+    rw [← hreq]
+    have t6 := F.tcp6
+    cases k with
+    | ipv4 => rfl
+    | ipv6 =>
+      simp only [requested] at hr ⊢
+      cases hl : l6 with
+      | none => rw [hl] at t6; simp only [FamBound] at t6; rw [t6.1] at hr; cases hr
+      | some a => rfl
+    | udp => simp only [requested] at hr ⊢; rw [← F.hudp]; exact hr
+    | dns =>
+      simp only [requested] at hr ⊢
+      apply F.hreq.mpr
+      intro hn; rw [hn] at hr; cases hr
+    | user => simp only [requested] at hr ⊢; rw [lookupOpt_isSome F.huid]; exact hr
+    | group => simp only [requested] at hr ⊢; rw [lookupOpt_isSome F.hgid]; exact hr
+    | loopback_proxy_port => cases hr
+  · cases hreq
+
+/-- The same, instantiated on the regenerated table: for each of the five methods, a plan with
+`--group` exists only if that method's table has `group` (likewise `--user`, IPv6, DNS, UDP). -/
+theorem C15_features_table (m : String) (f : Features) (hm : (m, f) ∈ METHOD_TABLE)
+    (c : Cmd) (env : Env) (p : Plan) (he : env.avail = f) (h : run c env = .plan p) :
+    ∀ k ∈ ASSERT_KEYS, requested c.user.isSome c.group.isSome p k = true → f.get k = true := by
+  subst he
+  exact C15_features c env p h
+
+/-- **C15_feature_fatal.** Conversely, "Feature K not supported with method M" is only ever said
+when K is one of the checked keys, the method's table really lacks K, and K was really asked for
+(`--user` / `--group` given for those two keys; UDP is never the reason, it is only switched on
+when available). -/
+theorem C15_feature_fatal (c : Cmd) (env : Env) (k : FeatKey)
+    (h : run c env = .stop (.fatal (.feature k))) :
+    k ∈ ASSERT_KEYS ∧ env.avail.get k = false ∧ k ≠ .udp ∧
+    (k = .user → c.user.isSome = true) ∧ (k = .group → c.group.isSome = true) := by
+  obtain ⟨hU, _, _, hB, _, _, _, hT, hD, hE, _⟩ := C15_side_conditions
+  have hm : clientMain c env (listenArgs c).1 (listenArgs c).2 = .stop (.fatal (.feature k)) := by
+    unfold run at h
+    split at h
+    · cases h
+    · split at h
+      · cases h
+      · exact h
+  rcases clientMain_stop hm with h1 | ⟨P, h1, h2⟩
+  · obtain ⟨uid, gid, hu, hg, ha⟩ := prep_error_feature h1
+    obtain ⟨hk, hr, hav⟩ := assertFeatures_feature ha
+    refine ⟨hk, hav, ?_, ?_, ?_⟩
+    · intro hc; subst hc
+      unfold requiredGet at hr
+      split at hr
+      · injection hr with hr
+        simp only [Features.get] at hav
+        rw [hav] at hr; cases hr
+      · cases hr
+    · intro hc; subst hc
+      unfold requiredGet at hr
+      split at hr
+      · injection hr with hr
+        rw [← lookupOpt_isSome hu]; exact hr
+      · cases hr
+    · intro hc; subst hc
+      unfold requiredGet at hr
+      split at hr
+      · injection hr with hr
+        rw [← lookupOpt_isSome hg]; exact hr
+      · cases hr
+  · exfalso
+    rcases h2 with h2 | ⟨T, h2, h3⟩
+    · rcases tcpStage_error_kind hU hT hE h2 with hk | ⟨e, _, hk⟩ | ⟨hk, _⟩ <;> cases hk
+    · have tused := (tcpStage_ok hU h2).2.2.2
+      rcases h3 with h3 | ⟨D, _, h4⟩
+      · rcases dnsStage_error_kind hB hD tused h3 with hk | ⟨e, hk⟩
+        · cases hk
+        · cases hk
+      · rcases sanity_error_kind h4 with hk | ⟨m, hk, hf⟩
+        · cases hk
+        · injection hk with hk; subst hk; cases hf
+
+example : run { group := some 7, includes := [⟨.v4, 167772160, 8, 0, 0⟩] }
+    { avail := FEAT_tproxy, groups := fun _ => some 0 } = .stop (.fatal (.feature .group)) := by
+  decide +kernel
+
+/-! ## 9. Family pruning removes IPv6 entries, only them, and only when IPv6 is inactive -/
+
+
+
+/-- **C15_pruning_exact.** For every input: the subnets handed over are the user's subnets when
+IPv6 is active and exactly their IPv4 part when it is not; the excludes are the user's excludes
+(resp. their IPv4 part) followed only by host-wide excludes of addresses the redirector listens on;
+the name servers are the requested ones (`--ns-hosts`, plus resolv.conf with `--dns`) resp. their
+IPv4 part.  No IPv4 entry is ever dropped, no IPv6 entry survives an inactive IPv6. -/
+theorem C15_pruning_exact (c : Cmd) (env : Env) (p : Plan) (h : run c env = .plan p) :
+    p.includes = (if ipv6Active p then c.includes else c.includes.filter fun s => isV4 s.fam) ∧
+    p.nslist = (if ipv6Active p then nslistOf c env else (nslistOf c env).filter fun n => isV4 n.fam) ∧
+    ∃ auto, p.excludes =
+        (if ipv6Active p then c.excludes else c.excludes.filter fun s => isV4 s.fam) ++ auto ∧
+      ∀ s ∈ auto, ∃ a, Listener.at p.tcp s.fam = some a ∧ s = ⟨s.fam, a.ip, hostWidth s.fam, 0, 0⟩ := by
+  obtain ⟨hU, _, _, _, _, _, _, _, _, _, _, _, hW4, hW6⟩ := C15_side_conditions
+  obtain ⟨l6, l4, uid, gid, F⟩ := clientMain_plan_facts hU (run_plan h)
+  have t6 := F.tcp6
+  have t4 := F.tcp4
+  have hact : ipv6Active p = l6.isSome := by
+    unfold ipv6Active
+    cases hl : l6 with
+    | none => rw [hl] at t6; simp only [FamBound] at t6; simp [t6.1]
+    | some a => rw [hl] at t6; simp only [FamBound] at t6; simp [t6.1]
+  rw [hact, F.hinc, F.hns, F.hexc]
+  refine ⟨?_, ?_, ?_⟩
+  · simp only [mkPrep]
+    cases hl : l6.isSome with
+    | true => simp
+    | false =>
+      simp only [Bool.not_false, Bool.true_and, Bool.false_eq_true, ↓reduceIte]
+      split
+      · rfl
+      next hp =>
+        simp only [gt_iff_lt, decide_eq_true_eq, Nat.not_lt, Nat.le_zero_eq, List.length_eq_zero_iff] at hp
+        exact (filter_v4_of_no_v6 Subnet.fam c.includes hp).symm
+  · simp only [mkPrep]
+    cases hl : l6.isSome with
+    | true => simp
+    | false =>
+      simp only [Bool.not_false, Bool.and_true, Bool.false_eq_true, ↓reduceIte]
+      split
+      · rfl
+      next hp =>
+        simp only [gt_iff_lt, Bool.and_eq_true, decide_eq_true_eq, not_and, Nat.not_lt, Nat.le_zero_eq,
+          List.length_eq_zero_iff] at hp
+        by_cases hz : 0 < (nslistOf c env).length
+        · exact (filter_v4_of_no_v6 Ns.fam _ (hp hz)).symm
+        · have : nslistOf c env = [] := List.length_eq_zero_iff.mp (by omega)
+          simp [this]
+  · simp only [mkPrep, List.append_assoc]
+    have hif : (if l6.isSome = true then c.excludes else c.excludes.filter fun s => isV4 s.fam) =
+        (if (!l6.isSome) = true then c.excludes.filter fun s => isV4 s.fam else c.excludes) := by
+      cases l6.isSome <;> rfl
+    rw [hif]
+    refine ⟨_, rfl, ?_⟩
+    intro s hs
+    rcases List.mem_append.mp hs with hs | hs
+    · cases hl : l4 with
+      | none => rw [hl] at hs; cases hs
+      | some a =>
+        rw [hl] at hs t4
+        simp only [FamBound] at t4
+        dsimp only at hs
+        split at hs
+        · simp only [List.mem_singleton] at hs; subst hs
+          exact ⟨_, t4.1, by simp [hostWidth, hW4]⟩
+        · cases hs
+    · cases hl : l6 with
+      | none => rw [hl] at hs; cases hs
+      | some a =>
+        rw [hl] at hs t6
+        simp only [FamBound] at t6
+        simp only [Option.isSome_some, Bool.not_true, Bool.false_and, Bool.false_eq_true, ↓reduceIte] at hs
+        split at hs
+        · simp only [List.mem_singleton] at hs; subst hs
+          exact ⟨_, t6.1, by simp [hostWidth, hW6]⟩
+        · cases hs
 
 end Sshuttle.ClientPlan
